@@ -1467,6 +1467,179 @@ fn follow_sets(grammar: &Grammar, first_sets: &FirstSets) -> FollowSets {
     follow_sets
 }
 
+/// Verification hooks: thin entry points that build the minimal real
+/// `LRTable`/`LRState` around plain inputs and call the real private functions.
+/// Compiled only with the `verif` feature; adds no behaviour.
+#[cfg(feature = "verif")]
+pub(crate) mod verif_hooks {
+    use super::*;
+
+    /// Plain view of an LR item.
+    #[derive(Debug, Clone)]
+    pub struct ItemView {
+        pub prod: usize,
+        pub prod_len: usize,
+        pub rn_len: Option<usize>,
+        pub position: usize,
+        pub follow: Vec<usize>,
+    }
+
+    fn item_from_view(v: &ItemView) -> LRItem {
+        LRItem {
+            prod: ProdIndex(v.prod),
+            prod_len: v.prod_len,
+            rn_len: v.rn_len,
+            position: v.position,
+            follow: RefCell::new(v.follow.iter().map(|s| SymbolIndex(*s)).collect()),
+        }
+    }
+
+    fn view_from_item(i: &LRItem) -> ItemView {
+        ItemView {
+            prod: i.prod.0,
+            prod_len: i.prod_len,
+            rn_len: i.rn_len,
+            position: i.position,
+            follow: i.follow.borrow().iter().map(|s| s.0).collect(),
+        }
+    }
+
+    pub fn items(state: &LRState) -> Vec<ItemView> {
+        state.items.iter().map(view_from_item).collect()
+    }
+
+    pub fn max_prior_for_term(state: &LRState) -> Vec<(usize, u32)> {
+        state
+            .max_prior_for_term
+            .iter()
+            .map(|(t, p)| (t.0, *p))
+            .collect()
+    }
+
+    pub fn first_sets_of(table: &LRTable) -> Vec<Vec<usize>> {
+        table
+            .first_sets
+            .iter()
+            .map(|s| s.iter().map(|x| x.0).collect())
+            .collect()
+    }
+
+    fn bare_table<'g, 's>(grammar: &'g Grammar, settings: &'s Settings) -> LRTable<'g, 's> {
+        LRTable {
+            grammar,
+            settings,
+            states: StateVec::new(),
+            layout_state: None,
+            first_sets: SymbolVec::new(),
+            production_rn_lengths: None,
+        }
+    }
+
+    /// Runs the real `calculate_reductions` on a single state holding the
+    /// given items, with the given pre-filled action cells and shift
+    /// priorities. Returns the resulting cells.
+    pub fn calculate_reductions(
+        grammar: &Grammar,
+        settings: &Settings,
+        items: &[ItemView],
+        cells: Vec<Vec<Action>>,
+        max_prior: &[(usize, u32)],
+    ) -> Vec<Vec<Action>> {
+        let mut table = bare_table(grammar, settings);
+        let mut state = LRState::new(grammar, StateIndex(0), grammar.start_index);
+        for i in items {
+            state.items.push(item_from_view(i));
+        }
+        assert_eq!(cells.len(), grammar.terminals.len());
+        state.actions = TermVec(cells);
+        for (t, p) in max_prior {
+            state.max_prior_for_term.insert(TermIndex(*t), *p);
+        }
+        table.states.push(state);
+        table.calculate_reductions();
+        table.states.0.pop().unwrap().actions.0
+    }
+
+    /// Runs the real `sort_terminals` on a single state whose cell for
+    /// terminal `t` is non-empty iff `present[t]`.
+    pub fn sort_terminals(
+        grammar: &Grammar,
+        settings: &Settings,
+        present: &[bool],
+    ) -> Vec<(usize, bool)> {
+        let mut table = bare_table(grammar, settings);
+        let mut state = LRState::new(grammar, StateIndex(0), grammar.start_index);
+        for (t, p) in present.iter().enumerate() {
+            if *p {
+                state.actions[TermIndex(t)].push(Action::Accept);
+            }
+        }
+        table.states.push(state);
+        table.sort_terminals();
+        table.states.0[0]
+            .sorted_terminals
+            .iter()
+            .map(|(t, f)| (t.0, *f))
+            .collect()
+    }
+
+    /// Runs the real `merge_state`; returns the verdict and the old state's
+    /// items afterwards.
+    pub fn merge_state(
+        grammar: &Grammar,
+        settings: &Settings,
+        old: &[ItemView],
+        new: &[ItemView],
+    ) -> (bool, Vec<ItemView>) {
+        let mut old_state = LRState::new(grammar, StateIndex(0), grammar.start_index);
+        for i in old {
+            old_state.items.push(item_from_view(i));
+        }
+        let mut new_state = LRState::new(grammar, StateIndex(1), grammar.start_index);
+        for i in new {
+            new_state.items.push(item_from_view(i));
+        }
+        let merged = LRTable::merge_state(settings, &mut old_state, &new_state);
+        (merged, items(&old_state))
+    }
+
+    /// Runs the real `firsts` over the given first sets.
+    pub fn firsts_of(grammar: &Grammar, first_sets: &[Vec<usize>], symbols: &[usize]) -> Vec<usize> {
+        let fs: FirstSets = SymbolVec(
+            first_sets
+                .iter()
+                .map(|s| s.iter().map(|x| SymbolIndex(*x)).collect())
+                .collect(),
+        );
+        let symbols: Vec<SymbolIndex> = symbols.iter().map(|s| SymbolIndex(*s)).collect();
+        firsts(grammar, &fs, &symbols).iter().map(|s| s.0).collect()
+    }
+
+    /// Runs the real `first_sets`.
+    pub fn first_sets_for(grammar: &Grammar) -> Vec<Vec<usize>> {
+        first_sets(grammar)
+            .iter()
+            .map(|s| s.iter().map(|x| x.0).collect())
+            .collect()
+    }
+
+    /// Runs the real `production_rn_lengths` over the given first sets.
+    pub fn rn_lengths(grammar: &Grammar, first_sets: &[Vec<usize>]) -> Vec<usize> {
+        let fs: FirstSets = SymbolVec(
+            first_sets
+                .iter()
+                .map(|s| s.iter().map(|x| SymbolIndex(*x)).collect())
+                .collect(),
+        );
+        production_rn_lengths(&fs, grammar).0
+    }
+
+    /// The real `LRItem::is_reducing`.
+    pub fn is_reducing(item: &ItemView) -> bool {
+        item_from_view(item).is_reducing()
+    }
+}
+
 #[cfg(test)]
 mod tests {
 
